@@ -270,7 +270,7 @@ func noteDML(run *vf.Run, res *caseResult) {
 	diff := false
 	for _, col := range rt.c.Colls {
 		for _, sh := range col.Shards {
-			if sh.SrcP[4:] != sh.DstP[4:] {
+			if chanIdx(sh.SrcP) != chanIdx(sh.DstP) {
 				diff = true
 			}
 		}
@@ -379,3 +379,5 @@ func init() {
 			run.Floor("mode_5", 10)
 		}}
 }
+
+func chanIdx(p string) string { return p[strings.LastIndex(p, "_")+1:] }
